@@ -57,10 +57,61 @@ type Contract struct {
 	SameAs   string            // this function is verified against (and stands for) the contract of another function, parameters mapped by position
 	FuncVars map[string]string // function-typed variables (parameters, free variables): the contract calls through them obey ("passthrough" = plugin interceptor hypothesis)
 	Abstract bool              // slot contract on a dummy function of the contracts file: never verified as a unit, obligations arise where function values are stored into the slot
+	Dropped  []droppedClause   // clauses set aside because they no longer type-check against the current tree
+	PosNames []string          // names the clauses use for the function's parameters, by position (receiver first)
+	HasParamList bool
 	AtCalls  []*Clause         // obligations at the unit's calls of a named callee
 	Groups   []string          // clause groups spliced into this contract (use)
 	ModGroup map[string]string // modifies entry -> group it came from
 	uses     []string
+}
+
+type droppedClause struct {
+	Kind  string
+	Label string
+	Loop  int
+	Props []string
+	Why   string
+}
+
+// dropClauses removes the clauses with the given generated names; false if one of them is a precondition or is not found.
+func (c *Contract) dropClauses(gens []string, why string) bool {
+	isGen := map[string]bool{}
+	for _, g := range gens {
+		isGen[g] = true
+	}
+	found := 0
+	for _, cl := range c.Requires {
+		if isGen[cl.GenName] && !cl.Assumed {
+			return false
+		}
+	}
+	filter := func(cls []*Clause) []*Clause {
+		var out []*Clause
+		for _, cl := range cls {
+			if isGen[cl.GenName] {
+				found++
+				c.Dropped = append(c.Dropped, droppedClause{Kind: cl.Kind, Label: cl.Label, Loop: cl.Loop, Props: cl.Props, Why: why})
+				continue
+			}
+			out = append(out, cl)
+		}
+		return out
+	}
+	c.Requires = filter(c.Requires)
+	c.Ensures = filter(c.Ensures)
+	c.AtCalls = filter(c.AtCalls)
+	for _, ls := range c.Loops {
+		ls.Invariants = filter(ls.Invariants)
+		ls.Before = filter(ls.Before)
+		ls.Each = filter(ls.Each)
+		if ls.Decreases != nil && isGen[ls.Decreases.GenName] {
+			found++
+			c.Dropped = append(c.Dropped, droppedClause{Kind: "decreases", Loop: ls.Decreases.Loop, Why: why})
+			ls.Decreases = nil
+		}
+	}
+	return found > 0
 }
 
 // slotInfo describes a function-typed field (or map-of-functions field) whose values obey a contract.
@@ -85,7 +136,7 @@ var transGroups = map[string]bool{}
 var fieldContracts = map[string]string{}
 
 var reStrLit = regexp.MustCompile(`"(?:[^"\\\n]|\\.)*"`)
-var reFuncHdr = regexp.MustCompile(`^func\s+(?:\(\s*\w*\s*(\*?)\s*(\w+)\s*\)\s*)?([\w$]+)\s*$`)
+var reFuncHdr = regexp.MustCompile(`^func\s+(?:\(\s*(\w*)\s*(\*?)\s*(\w+)\s*\)\s*)?([\w$]+)\s*(?:\(([\w\s,]*)\))?\s*$`)
 var reLabel = regexp.MustCompile(`^\[([^\]]+)\]\s*(.*)$`)
 
 // parseContractText parses the //@ lines of one contracts file.
@@ -114,11 +165,23 @@ func parseContractText(pkg, file string, src []byte) ([]*Contract, error) {
 				return nil, fmt.Errorf("%s:%d: cannot parse function header %q", file, lineNo, body)
 			}
 			key := pkg + "."
-			if m[2] != "" {
-				key += "(" + m[1] + m[2] + ")."
+			if m[3] != "" {
+				key += "(" + m[2] + m[3] + ")."
 			}
-			key += m[3]
+			key += m[4]
 			cur = &Contract{Key: key, Pkg: pkg, Loops: map[int]*LoopSpec{}, File: file, Line: lineNo}
+			// positional parameter names: the clauses use these names whatever the code calls its parameters
+			if m[3] != "" && !strings.Contains(m[4], "$") {
+				cur.PosNames = append(cur.PosNames, m[1])
+			}
+			if strings.Contains(body, "(") && strings.HasSuffix(strings.TrimSpace(body), ")") && m[5] != "" || strings.HasSuffix(strings.TrimSpace(body), "()") {
+				for _, n := range strings.Split(m[5], ",") {
+					if n = strings.TrimSpace(n); n != "" {
+						cur.PosNames = append(cur.PosNames, n)
+					}
+				}
+				cur.HasParamList = true
+			}
 			out = append(out, cur)
 			continue
 		}
@@ -462,9 +525,24 @@ func isIdent(s string) bool {
 	return true
 }
 
-func collectVars(f *ssa.Function) *fnVars {
+// paramNames: the names clauses use for f's parameters (positional names from the contract header, else the code's).
+func paramNames(f *ssa.Function, con *Contract) []string {
+	out := make([]string, len(f.Params))
+	for i, p := range f.Params {
+		out[i] = p.Name()
+		if con != nil && i < len(con.PosNames) && isIdent(con.PosNames[i]) && (i == 0 && f.Signature.Recv() != nil || con.HasParamList) {
+			out[i] = con.PosNames[i]
+		}
+	}
+	return out
+}
+
+func collectVars(f *ssa.Function) *fnVars { return collectVarsCon(f, nil) }
+
+func collectVarsCon(f *ssa.Function, con *Contract) *fnVars {
 	v := &fnVars{}
 	seen := map[string]bool{}
+	pn := paramNames(f, con)
 	for _, fv := range f.FreeVars {
 		if !isIdent(fv.Name()) {
 			continue
@@ -473,8 +551,8 @@ func collectVars(f *ssa.Function) *fnVars {
 		v.PTypes = append(v.PTypes, fv.Type().(*types.Pointer).Elem())
 		seen[fv.Name()] = true
 	}
-	for _, p := range f.Params {
-		n := p.Name()
+	for i, p := range f.Params {
+		n := pn[i]
 		if !isIdent(n) || seen[n] {
 			continue
 		}
@@ -550,7 +628,7 @@ func genClauseFiles(w *World, contracts map[string]*Contract) (map[string][]byte
 				missing = append(missing, c.Key)
 				continue
 			}
-			vars := collectVars(f)
+			vars := collectVarsCon(f, c)
 			emit := func(cl *Clause, idx int, withResult, withLocals bool, retType string) {
 				cl.GenName = fmt.Sprintf("xvcc_%s_%s_%d", sanitize(c.Key), cl.Kind, idx)
 				var ps []string
@@ -564,10 +642,11 @@ func genClauseFiles(w *World, contracts map[string]*Contract) (map[string][]byte
 						}
 					}
 					if cf != nil {
-						for _, cp := range cf.Params {
-							if isIdent(cp.Name()) {
-								ps = append(ps, "arg_"+cp.Name()+" "+types.TypeString(cp.Type(), qual))
-								cl.Params = append(cl.Params, "arg_"+cp.Name())
+						cpn := paramNames(cf, contracts[fnKey(w.pkgOfFn(cf), cf)])
+						for ci, cp := range cf.Params {
+							if isIdent(cpn[ci]) {
+								ps = append(ps, "arg_"+cpn[ci]+" "+types.TypeString(cp.Type(), qual))
+								cl.Params = append(cl.Params, "arg_"+cpn[ci])
 							}
 						}
 					}
